@@ -75,8 +75,12 @@ func (env *Env) c09ParseTail() {
 		desc string
 	}
 	type helperExp struct {
-		fn     string
-		gates  []struct{ name string; m func(b *flow.Term, in pat.M) pat.M; desc string }
+		fn    string
+		gates []struct {
+			name string
+			m    func(b *flow.Term, in pat.M) pat.M
+			desc string
+		}
 		fields []fieldExp
 		extra  func(a *flow.Alt, in pat.M) string // "" ok
 	}
@@ -99,7 +103,11 @@ func (env *Env) c09ParseTail() {
 			return t.Op == flow.OpSlice && in(t.Args[0], b) && lo(t.Args[1], b) && hi(t.Args[2], b)
 		}
 	}
-	type gate = struct{ name string; m func(b *flow.Term, in pat.M) pat.M; desc string }
+	type gate = struct {
+		name string
+		m    func(b *flow.Term, in pat.M) pat.M
+		desc string
+	}
 	minLen := func(n string) gate {
 		return gate{"min-length", func(b *flow.Term, in pat.M) pat.M { return pat.Bin("<=", pat.Const(n), pat.Len(pat.Is(b))) }, "len(input) >= " + n}
 	}
@@ -433,7 +441,11 @@ func (env *Env) c09SerTail() {
 
 // c09Constants: the values the validity predicate pins.
 func (env *Env) c09Constants() {
-	type cexp struct{ fn, name string; m func(msg *flow.Term) pat.M; desc string }
+	type cexp struct {
+		fn, name string
+		m        func(msg *flow.Term) pat.M
+		desc     string
+	}
 	f := func(msg *flow.Term, n string) pat.M { return pat.Is(fieldT(msg, n)) }
 	exps := []cexp{
 		{"checkHeader", "version", func(m *flow.Term) pat.M { return pat.Bin("==", f(m, "Version"), pat.Const("4")) }, "Header.Version == 4"},
@@ -442,7 +454,9 @@ func (env *Env) c09Constants() {
 		{"checkCertificationData", "type-6", func(m *flow.Term) pat.M { return pat.Bin("==", f(m, "CertificateDataType"), pat.Const("6")) }, "certification data type == 6"},
 		{"checkPCKCertificateChain", "type-5", func(m *flow.Term) pat.M { return pat.Bin("==", f(m, "CertificateDataType"), pat.Const("5")) }, "PCK chain data type == 5"},
 		{"checkPCKCertificateChain", "size-is-length", func(m *flow.Term) pat.M { return pat.Bin("==", f(m, "Size"), pat.Conv(pat.Len(f(m, "PckCertChain")))) }, "PCK chain Size == len(PckCertChain)"},
-		{"checkQeAuthData", "size-is-length", func(m *flow.Term) pat.M { return pat.Bin("==", f(m, "ParsedDataSize"), pat.Conv(pat.Len(f(m, "Data")))) }, "QE auth ParsedDataSize == len(Data)"},
+		{"checkQeAuthData", "size-is-length", func(m *flow.Term) pat.M {
+			return pat.Bin("==", f(m, "ParsedDataSize"), pat.Conv(pat.Len(f(m, "Data"))))
+		}, "QE auth ParsedDataSize == len(Data)"},
 		{"checkQeReportCertificationData", "signature-size", func(m *flow.Term) pat.M { return pat.Bin("==", pat.Len(f(m, "QeReportSignature")), pat.Const("64")) }, "len(QeReportSignature) == 64"},
 		{"checkEcdsa256BitQuoteV4AuthData", "signature-size", func(m *flow.Term) pat.M { return pat.Bin("==", pat.Len(f(m, "Signature")), pat.Const("64")) }, "len(Signature) == 64"},
 		{"checkEcdsa256BitQuoteV4AuthData", "key-size", func(m *flow.Term) pat.M { return pat.Bin("==", pat.Len(f(m, "EcdsaAttestationKey")), pat.Const("64")) }, "len(EcdsaAttestationKey) == 64"},
